@@ -14,6 +14,18 @@
 
 #include "common.h"
 
+#ifdef TUKAANI_PROJECT_XZ_VERIF
+// Verification hook H3 (/verif/hooks/h3-mtdec.patch): protocol events of the threaded coders.
+// NULL (the default) disables it. Defined in outqueue.c.
+extern void (*lzma_verif_mt_event)(unsigned ev, const void *p,
+		uint64_t a, uint64_t b, uint64_t c);
+#	define VERIF_MT_EV(ev, p, a, b, c) \
+		do { if (lzma_verif_mt_event != NULL) \
+			lzma_verif_mt_event((ev), (p), (uint64_t)(a), \
+				(uint64_t)(b), (uint64_t)(c)); \
+		} while (0)
+#endif
+
 
 /// Output buffer for a single thread
 typedef struct lzma_outbuf_s lzma_outbuf;
